@@ -107,51 +107,64 @@ impl<R: Read> GenomeIO<R> {
             None => return Ok(None),
         };
 
-        let mut contig = Contig::new();
-
-        // Read ID line (starts with '>')
-        // Check if we have a buffered header from previous read
-        let header_line = if let Some(buffered) = self.next_header.take() {
-            buffered
-        } else {
-            self.buffer.clear();
-            let bytes_read = reader.read_until(b'\n', &mut self.buffer)?;
-            if bytes_read == 0 {
-                return Ok(None);
-            }
-            self.buffer.clone()
-        };
-
-        // Extract ID (skip '>' and trim whitespace)
-        let id_line = String::from_utf8_lossy(&header_line);
-        let id = id_line.trim_start_matches('>').trim().to_string();
-
-        // Read sequence data until next '>' or EOF
+        // A record without sequence lines (a header directly followed by another header or by
+        // the end of the input, a blank line in front of a header) is skipped; it does not end the
+        // input. Returning None here made every caller stop and silently drop all later records.
         loop {
-            self.buffer.clear();
-            let bytes_read = reader.read_until(b'\n', &mut self.buffer)?;
+            let mut contig = Contig::new();
 
-            if bytes_read == 0 {
-                // EOF reached
-                break;
+            // Read ID line (starts with '>')
+            // Check if we have a buffered header from previous read
+            let header_line = if let Some(buffered) = self.next_header.take() {
+                buffered
+            } else {
+                self.buffer.clear();
+                let bytes_read = reader.read_until(b'\n', &mut self.buffer)?;
+                if bytes_read == 0 {
+                    return Ok(None);
+                }
+                self.buffer.clone()
+            };
+
+            // Extract ID (skip '>' and trim whitespace)
+            let id_line = String::from_utf8_lossy(&header_line);
+            let id = id_line.trim_start_matches('>').trim().to_string();
+
+            // Read sequence data until next '>' or EOF
+            loop {
+                self.buffer.clear();
+                let bytes_read = reader.read_until(b'\n', &mut self.buffer)?;
+
+                if bytes_read == 0 {
+                    // EOF reached
+                    break;
+                }
+
+                // Check if this is the start of a new contig
+                if !self.buffer.is_empty() && self.buffer[0] == b'>' {
+                    // Save this header for the next read
+                    self.next_header = Some(self.buffer.clone());
+                    break;
+                }
+
+                // Append sequence data
+                contig.extend_from_slice(&self.buffer);
             }
 
-            // Check if this is the start of a new contig
-            if !self.buffer.is_empty() && self.buffer[0] == b'>' {
-                // Save this header for the next read
-                self.next_header = Some(self.buffer.clone());
-                break;
+            if contig.is_empty() {
+                // No sequence lines: nothing is lost by skipping this record
+                continue;
             }
 
-            // Append sequence data
-            contig.extend_from_slice(&self.buffer);
-        }
+            if id.is_empty() {
+                return Err(io::Error::new(
+                    io::ErrorKind::InvalidData,
+                    "FASTA record with sequence data but without a name",
+                ));
+            }
 
-        if id.is_empty() || contig.is_empty() {
-            return Ok(None);
+            return Ok(Some((id, contig)));
         }
-
-        Ok(Some((id, contig)))
     }
 
     /// Internal implementation of contig reading with optional conversion
